@@ -271,7 +271,7 @@ func c07CellsFor(s *skeleton, withFixed bool) []c07Cell {
 				}
 			}
 			// redefinition at u
-			for _, rk := range [][2]string{{"short", "x := 5"}, {"var", "var x int"}, {"other-type", "x := \"s\""}} {
+			for _, rk := range [][2]string{{"short", "x := 5"}, {"var", "var x int"}, {"other-type", "x := \"s\""}, {"var-list-new-second", "var x, extra int"}, {"var-list-new-first", "var extra, x int"}, {"var-list-values", "var x, extra = 5, 6"}, {"var-list-three", "var e1, x, e2 string"}} {
 				content := map[int]string{}
 				if d == u {
 					content[d] = "x := 1\n" + rk[1]
